@@ -17,6 +17,7 @@ inductive Err where
   | magic          -- recordio.MagicNumberMismatchErr
   | headerCrc      -- recordio.HeaderChecksumMismatchErr
   | headerTooLong  -- checksum byte reader out of range (more than 36 header bytes)
+  | nonCanonical   -- recordio.NonCanonicalVarintErr (zero-padded varint in a record header)
   | decompress     -- compressor rejected the stored payload
   | checksum       -- sstables.ChecksumError
   | notFound
@@ -27,7 +28,7 @@ inductive Err where
 
 def Err.toString : Err → String
   | .eof => "eof" | .unexpectedEof => "ueof" | .overflow => "overflow" | .magic => "magic"
-  | .headerCrc => "hdrcrc" | .headerTooLong => "hdrlong" | .decompress => "decomp"
+  | .headerCrc => "hdrcrc" | .headerTooLong => "hdrlong" | .nonCanonical => "noncanon" | .decompress => "decomp"
   | .checksum => "checksum" | .notFound => "notfound" | .rejected => "rejected" | .io => "io"
   | .other => "other"
 
